@@ -139,6 +139,13 @@ type Interp struct {
 	PoolNew    map[*Obj]*ssa.Function // sync.Pool.New by pool object
 	SyncMaps   map[*Obj]*MapV         // sync.Map contents by map object
 	Trace      []string               // notable library calls, in order
+	// OnGo is called for a go statement (the goroutine body is not evaluated). Without it a go statement is outside
+	// the evaluated fragment.
+	OnGo func(ip *Interp, fn *ssa.Function, args []AV)
+	// Clock supplies time.Now (default: an opaque symbol).
+	Clock func() time.Time
+	// OnOS models the os package calls of the file appenders: OpenFile, ReadDir, Remove, and *os.File methods.
+	OnOS func(ip *Interp, name string, args []AV) (AV, bool)
 	// OnMarshal models encoding/json.Marshal on an abstract value.
 	OnMarshal func(ip *Interp, v AV) ([]byte, error)
 	Atomics   map[string]AV // values of sync/atomic typed variables, by cell identity
@@ -742,7 +749,20 @@ func (ip *Interp) call(fn *ssa.Function, args []AV, free []AV) AV {
 					m.Keys = append(m.Keys, k)
 				}
 				m.M[k] = copyVal(ip.operand(fr, x.Value))
-			case *ssa.Go, *ssa.Send, *ssa.Select:
+			case *ssa.Go:
+				if ip.OnGo == nil {
+					ood("go statement")
+				}
+				cc := x.Call
+				var target *ssa.Function
+				switch v := cc.Value.(type) {
+				case *ssa.Function:
+					target = v
+				case *ssa.MakeClosure:
+					target, _ = v.Fn.(*ssa.Function)
+				}
+				ip.OnGo(ip, target, ip.evalArgs(fr, &cc))
+			case *ssa.Send, *ssa.Select:
 				ood("concurrency instruction %T", in)
 			case ssa.Value:
 				fr.env[x] = ip.value(fr, x)
@@ -1587,6 +1607,11 @@ func (ip *Interp) model(fn *ssa.Function, args []AV) (res AV, ok bool) {
 	if fn.Origin() != nil {
 		name = fn.Origin().String()
 	}
+	if ip.OnOS != nil && (strings.HasPrefix(name, "os.") || strings.HasPrefix(name, "(*os.File).") || strings.HasPrefix(name, "path/filepath.") || name == "fmt.Fprintln" || name == "fmt.Fprintf" || name == "fmt.Fprint") {
+		if r, ok := ip.OnOS(ip, name, args); ok {
+			return r, true
+		}
+	}
 	switch name {
 	case "runtime.Caller":
 		// frame 0 = the function calling runtime.Caller
@@ -1698,10 +1723,33 @@ func (ip *Interp) model(fn *ssa.Function, args []AV) (res AV, ok bool) {
 		}
 	case "time.Now":
 		ip.Trace = append(ip.Trace, "time.Now")
+		if ip.Clock != nil {
+			return &TimeV{T: ip.Clock()}, true
+		}
 		return &Sym{Name: "time.Now"}, true
 	case "fmt.Sprintf":
 		ip.Trace = append(ip.Trace, "fmt.Sprintf")
 		if f, ok := args[0].(constant.Value); ok && f.Kind() == constant.String {
+			// with arguments that have a native counterpart the real formatter is used
+			var natives []any
+			okAll := true
+			if len(args) > 1 {
+				if sv, isS := args[1].(*SliceV); isS {
+					for _, e := range sv.elems() {
+						n, ok := avNative(e)
+						if !ok {
+							okAll = false
+							break
+						}
+						natives = append(natives, n)
+					}
+				} else if _, isNil := args[1].(NilV); !isNil {
+					okAll = false
+				}
+			}
+			if okAll {
+				return kStr(fmt.Sprintf(constant.StringVal(f), natives...)), true
+			}
 			return kStr("sprintf(" + constant.StringVal(f) + ")"), true
 		}
 		return kStr("sprintf(?)"), true
